@@ -151,6 +151,9 @@ MUTANTS = [
     M("answer-log-parent-unbound", PUB,
       "        lp = self.log(\"_got_write_answer from %r, share %d\" %", "        self.log(\"_got_write_answer from %r, share %d\" %",
       "C12.10"),
+    M("answer-timestamp-unbound", PUB,
+      "        now = time.time()\n        elapsed = now - started\n\n        self._status.add_per_server_time",
+      "        elapsed = now - started\n\n        self._status.add_per_server_time", "C12.10"),
     M("answer-surprise-set-unbound", PUB,
       "        surprise_shares = set(read_data.keys()) - set([writer.shnum])\n",
       "        if self.versioninfo:\n            surprise_shares = set(read_data.keys()) - set([writer.shnum])\n", "C12.10"),
